@@ -31,7 +31,7 @@ theorem ite_fun_apply {α β} (c : Prop) [Decidable c] (f g : α → β) (x : α
 then extensionality on the store and case analysis on the (finitely many) guards. -/
 macro "settings_restores" d:ident : tactic => `(tactic| (
   intro σ args strict
-  simp only [$d:ident, execAll, Stmt.exec, Expr.eval, setF_apply, List.contains_cons, List.contains_nil,
+  simp only [$d:ident, execAll, Stmt.exec, Expr.eval, Cond.eval, setF_apply, List.contains_cons, List.contains_nil,
     Nat.reduceEqDiff, ↓reduceIte, if_true, if_false, ite_fst, ite_snd, ite_env_store, ite_env_self,
     ite_env_args, ite_env_strict, ite_self, ite_fun_apply, Bool.false_eq_true]
   refine ⟨?_, fun _ => ⟨fun _ => ?_, fun _ => ⟨?_, ?_⟩⟩⟩ <;>
@@ -42,7 +42,7 @@ macro "settings_restores" d:ident : tactic => `(tactic| (
 
 /-- Proves the generated `entered_<name>` statements (what is visible inside the block). -/
 macro "settings_entered" d:ident : tactic => `(tactic| (
-  simp only [enteredStore, $d:ident, execAll, Stmt.exec, Expr.eval, setF_apply, setS_apply, List.contains_cons,
+  simp only [enteredStore, $d:ident, execAll, Stmt.exec, Expr.eval, Cond.eval, setF_apply, setS_apply, List.contains_cons,
     List.contains_nil, Nat.reduceEqDiff, ↓reduceIte, if_true, if_false, ite_fst, ite_snd, ite_env_store,
     ite_env_self, ite_env_args, ite_env_strict, ite_self, ite_fun_apply, Bool.false_eq_true, Option.map_some, Option.map_none,
     and_self, and_true, and_false] at *
